@@ -2,6 +2,7 @@
   C01 (token level): theorems about the lexer model GV.Eval.Lex.
 -/
 import GV.Eval.Lex
+import GV.Generated.Lexer
 namespace GV.Props.C01l
 open GV.Eval.Lex
 
@@ -194,5 +195,282 @@ theorem C01_lex_int (c : Char) (n rest : List Char) (hn : ∀ d ∈ c :: n, d.is
   have hpos : 0 < (c :: n).length ∧ (c :: n).length ≤ (c :: n ++ rest).length := by
     simp
   rw [if_pos hpos, htake, hdrop]
+
+/-! ### The fixed tokens: operators, punctuation, implicit literals, keywords -/
+
+/-- Every token whose text the grammar fixes, with the kind the lexer must give it. -/
+def fixedTokens : List (String × K) :=
+  [("+", .plus), ("-", .minus), ("/", .div), ("*", .mul), ("==", .equals), (">", .gt), ("<", .lt),
+   (">=", .gte), ("<=", .lte), ("!=", .noteq), ("!", .not), (":=", .assign), ("=", .set),
+   ("+=", .pluseq), ("-=", .minuseq), ("*=", .muleq), ("/=", .diveq), ("[", .lsq), ("]", .rsq),
+   (";", .semi), ("{", .lbrace), ("}", .rbrace), ("(", .lbr), (")", .rbr), (".", .dot),
+   ("&&", .and), ("||", .or), (",", .comma), ("@name", .atName), ("@id", .atId), ("@desc", .atDesc),
+   ("@sal", .atSal)] ++ keywords
+
+def lexesAlone (p : String × K) : Bool :=
+  tokens (p.1.toList ++ [' ']) == [⟨p.2, p.1.toList⟩] && tokens p.1.toList == [⟨p.2, p.1.toList⟩]
+    && lexOk p.1.toList
+
+/-- Each fixed token, alone or followed by a blank, is read as exactly one token of its kind (the
+    whole finite table, decided by the kernel). -/
+theorem C01_lex_fixed : fixedTokens.all lexesAlone = true := by decide
+
+/-- Keywords are case-insensitive and win over SIMPLENAME at equal length; one more name character
+    makes a name (longest match). -/
+theorem C01_lex_keyword_examples :
+    tokens "RuLe".toList = [⟨.rule, "RuLe".toList⟩] ∧
+    tokens "rules".toList = [⟨.simplename, "rules".toList⟩] ∧
+    tokens "forRange".toList = [⟨.forrange, "forRange".toList⟩] ∧
+    tokens "for Range".toList = [⟨.for_, "for".toList⟩, ⟨.simplename, "Range".toList⟩] ∧
+    tokens "if.x".toList = [⟨.dotted, "if.x".toList⟩] := by decide
+
+/-- Literals (the atoms C01's expressions are built from): a sign is its own token; `1.5e3`, `.5`
+    and `1.e5` are one real literal each; `1.` and `1e` are not; `"a""b"` is one string. -/
+theorem C01_lex_literal_examples :
+    tokens "1-2".toList = [⟨.int, ['1']⟩, ⟨.minus, ['-']⟩, ⟨.int, ['2']⟩] ∧
+    tokens "-1.5e3".toList = [⟨.minus, ['-']⟩, ⟨.real, "1.5e3".toList⟩] ∧
+    tokens ".5".toList = [⟨.real, ".5".toList⟩] ∧
+    tokens "1.e5".toList = [⟨.real, "1.e5".toList⟩] ∧
+    tokens "1.".toList = [⟨.int, ['1']⟩, ⟨.dot, ['.']⟩] ∧
+    tokens "1e".toList = [⟨.int, ['1']⟩, ⟨.simplename, ['e']⟩] ∧
+    tokens "\"a\"\"b\"".toList = [⟨.string, "\"a\"\"b\"".toList⟩] ∧
+    tokens "a.b.c.d".toList = [⟨.ddotted, "a.b.c".toList⟩, ⟨.dot, ['.']⟩, ⟨.simplename, ['d']⟩] ∧
+    lexOk "\"abc".toList = false ∧ lexOk "a # b".toList = false ∧ lexOk "x = 1 // c".toList = true ∧
+    tokens "x // c\ny".toList = [⟨.simplename, ['x']⟩, ⟨.simplename, ['y']⟩] := by decide
+
+/-- The name and integer theorems are not vacuous. -/
+example : lexOne ("ab1".toList ++ " + 2".toList) = some (⟨.simplename, "ab1".toList⟩, " + 2".toList) := by decide
+example : lexOne ("42".toList ++ ")".toList) = some (⟨.int, "42".toList⟩, ")".toList) := by decide
+
+/-! ### Obligations over the regenerated lexer tables (GV.Generated.Lexer) -/
+
+open GV.Generated.Lexer
+
+/-- Every kind of the model in the order of the generated lexer's token types. -/
+def allKinds : List K :=
+  [.comma, .atName, .atId, .atDesc, .atSal, .nil, .rule, .and, .or, .conc, .if_, .else_, .return_,
+   .for_, .break_, .forrange, .continue_, .true_, .false_, .null, .salience, .begin_, .end_,
+   .simplename, .int, .plus, .minus, .div, .mul, .equals, .gt, .lt, .gte, .lte, .noteq, .not,
+   .assign, .set, .pluseq, .minuseq, .muleq, .diveq, .lsq, .rsq, .semi, .lbrace, .rbrace, .lbr,
+   .rbr, .dot, .string, .dotted, .ddotted, .real]
+
+def kOfName (s : String) : Option K := allKinds.find? (fun k => k.name == s)
+def unquote (s : String) : String := String.ofList (s.toList.drop 1).dropLast
+def typeName (p : String × String) : String := if p.1 == "" then p.2 else p.1
+
+/-- The token types of the running lexer are the model's kinds, in the same order, followed by the
+    two skipped rules. -/
+theorem C01_lex_kinds_regenerated :
+    goTokenTypes.map typeName = allKinds.map K.name ++ ["SL_COMMENT", "WS"] := by decide
+
+def litOk (p : String × String) : Bool :=
+  p.2 == "" || (match kOfName (typeName p) with
+    | some k => lexesAlone (unquote p.2, k)
+    | none => false)
+
+/-- Every token type the running lexer reports with a literal text is read by the model, from that
+    text alone or followed by a blank, as one token of that type. -/
+theorem C01_lex_literals_regenerated : goTokenTypes.all litOk = true := by decide
+
+/-- The grammar's keyword rules are the model's keyword table (same words, same kinds, same order). -/
+theorem C01_lex_keywords_regenerated :
+    g4Keywords.map (fun p => (p.2, kOfName p.1)) = keywords.map (fun p => (p.1, some p.2)) := by decide
+
+/-- The bodies of all other lexer rules of gengine.g4 the model was written from. -/
+def expectedRules : List (String × String) := [
+  ("fragment DEC_DIGIT", "[0-9]"),
+  ("fragment EXPONENT_NUM_PART", "('E'|'e')'-'?DEC_DIGIT+"),
+  ("AND", "'&&'"),
+  ("OR", "'||'"),
+  ("SIMPLENAME", "('a'..'z'|'A'..'Z'|'_')+(('0'..'9')|('a'..'z'|'A'..'Z')|'_')*"),
+  ("INT", "'0'..'9'+"),
+  ("PLUS", "'+'"),
+  ("MINUS", "'-'"),
+  ("DIV", "'/'"),
+  ("MUL", "'*'"),
+  ("EQUALS", "'=='"),
+  ("GT", "'>'"),
+  ("LT", "'<'"),
+  ("GTE", "'>='"),
+  ("LTE", "'<='"),
+  ("NOTEQUALS", "'!='"),
+  ("NOT", "'!'"),
+  ("ASSIGN", "':='"),
+  ("SET", "'='"),
+  ("PLUSEQUAL", "'+='"),
+  ("MINUSEQUAL", "'-='"),
+  ("MULTIEQUAL", "'*='"),
+  ("DIVEQUAL", "'/='"),
+  ("LSQARE", "'['"),
+  ("RSQARE", "']'"),
+  ("SEMICOLON", "';'"),
+  ("LR_BRACE", "'{'"),
+  ("RR_BRACE", "'}'"),
+  ("LR_BRACKET", "'('"),
+  ("RR_BRACKET", "')'"),
+  ("DOT", "'.'"),
+  ("DQUOTA_STRING", "'\"'('\\\\'.|'\"\"'|~('\"'|'\\\\'))*'\"'"),
+  ("DOTTEDNAME", "SIMPLENAMEDOTSIMPLENAME"),
+  ("DOUBLEDOTTEDNAME", "SIMPLENAMEDOTSIMPLENAMEDOTSIMPLENAME"),
+  ("REAL_LITERAL", "(DEC_DIGIT+)?'.'DEC_DIGIT+|DEC_DIGIT+'.'EXPONENT_NUM_PART|(DEC_DIGIT+)?'.'(DEC_DIGIT+EXPONENT_NUM_PART)|DEC_DIGIT+EXPONENT_NUM_PART"),
+  ("SL_COMMENT", "'//'.*?'\\n'->skip"),
+  ("WS", "[ \\t\\n\\r]+->skip")
+]
+
+theorem C01_lex_rules_regenerated : g4Rules = expectedRules := by rfl
+
+/-- Priority: the implicit literals come first, and the generated lexer orders the token rules as the
+    grammar file does - every keyword before SIMPLENAME, INT before REAL_LITERAL. -/
+theorem C01_lex_priority_regenerated :
+    goRuleNames.take 5 = ["T__0", "T__1", "T__2", "T__3", "T__4"] ∧
+    goRuleNames.filter (fun n => g4Order.contains n) = g4Order ∧
+    g4Order = (allKinds.drop 5).map K.name ++ ["SL_COMMENT", "WS"] := by decide
+
+/-! ### Blank-separated texts: the lexer returns exactly the tokens that were written -/
+
+/-- A token text is self-delimiting before a blank: whatever follows the blank, the lexer reads
+    exactly this text as one token of this kind. -/
+def Delim (t : Tok) : Prop :=
+  (∀ rest, lexOne (t.text ++ ' ' :: rest) = some (t, ' ' :: rest)) ∧ t.kind ≠ .skip
+
+/-- the text of a token list: every token followed by one blank -/
+def spaced : List Tok → List Char
+  | [] => []
+  | t :: ts => t.text ++ ' ' :: spaced ts
+
+theorem spaced_head_not_ws (ts : List Tok) (h : ∀ t ∈ ts, Delim t) :
+    ∀ c r, spaced ts = c :: r → isWs c = false := by
+  intro c r hs
+  cases ts with
+  | nil => simp [spaced] at hs
+  | cons t ts =>
+    have hd := (h t (by simp)).1 (spaced ts)
+    have hk := (h t (by simp)).2
+    simp only [spaced] at hs
+    rw [hs] at hd
+    -- were c white space, the token read would be a skip
+    cases hw : isWs c with
+    | false => rfl
+    | true =>
+      exfalso
+      unfold lexOne lexLen at hd
+      simp only [hw, ite_true] at hd
+      split at hd
+      · simp only [Option.some.injEq, Prod.mk.injEq] at hd
+        exact hk (by rw [← hd.1])
+      · cases hd
+
+theorem lexOne_blank (rest : List Char) (h : ∀ c r, rest = c :: r → isWs c = false) :
+    lexOne (' ' :: rest) = some (⟨.skip, [' ']⟩, rest) := by
+  have htw : (' ' :: rest).takeWhile isWs = [' '] := by
+    have := takeWhile_append_stop isWs [' '] rest (by decide) h
+    simpa using this
+  unfold lexOne lexLen
+  have hws : isWs ' ' = true := by decide
+  simp only [hws, ite_true, htw, List.length_singleton]
+  have hpos : 0 < 1 ∧ 1 ≤ (' ' :: rest).length := by simp
+  rw [if_pos hpos]; rfl
+
+/-- **C01 (token level), round trip.** Writing self-delimiting tokens with one blank after each and
+    lexing the text gives back exactly those tokens, for every fuel that covers the text. -/
+theorem lexFuel_spaced (ts : List Tok) (h : ∀ t ∈ ts, Delim t) (f : Nat) (hf : (spaced ts).length ≤ f) :
+    (lexFuel f (spaced ts)).2 = [] ∧
+    (lexFuel f (spaced ts)).1.filter (fun t => t.kind != .skip) = ts := by
+  induction ts generalizing f with
+  | nil => cases f <;> simp [spaced, lexFuel]
+  | cons t ts ih =>
+    have hd := (h t (by simp)).1 (spaced ts)
+    have hk := (h t (by simp)).2
+    have hrest : ∀ t' ∈ ts, Delim t' := fun t' ht' => h t' (by simp [ht'])
+    have hsplit := C01l.lexOne_split hd
+    -- two steps: the token, then the blank
+    have hlen : (spaced (t :: ts)).length = t.text.length + 1 + (spaced ts).length := by
+      simp [spaced]; omega
+    have htne : t.text ≠ [] := hsplit.2.1
+    have htl : 0 < t.text.length := List.length_pos_iff.mpr htne
+    obtain ⟨f1, rfl⟩ : ∃ f1, f = f1 + 2 := ⟨f - 2, by omega⟩
+    have hb := lexOne_blank (spaced ts) (spaced_head_not_ws ts hrest)
+    have hne : spaced (t :: ts) ≠ [] := by simp [spaced]
+    have step1 : lexFuel (f1 + 2) (spaced (t :: ts)) =
+        (t :: ⟨.skip, [' ']⟩ :: (lexFuel f1 (spaced ts)).1, (lexFuel f1 (spaced ts)).2) := by
+      cases hs : spaced (t :: ts) with
+      | nil => exact absurd hs hne
+      | cons c r =>
+        rw [← hs]
+        show lexFuel (f1 + 1 + 1) (spaced (t :: ts)) = _
+        rw [hs]; simp only [lexFuel]; rw [← hs]
+        simp only [spaced] at hd ⊢
+        rw [hd]
+        simp only [lexFuel, hb]
+    have := ih hrest f1 (by omega)
+    rw [step1]
+    refine ⟨this.1, ?_⟩
+    simp only [List.filter_cons]
+    have hk' : (t.kind != K.skip) = true := by simpa using hk
+    simp [hk', this.2]
+
+theorem C01_lex_spaced (ts : List Tok) (h : ∀ t ∈ ts, Delim t) :
+    lexOk (spaced ts) = true ∧ tokens (spaced ts) = ts := by
+  have := lexFuel_spaced ts h (spaced ts).length (Nat.le_refl _)
+  unfold lexOk tokens lexAll
+  exact ⟨by rw [this.1]; rfl, this.2⟩
+
+theorem keywords_not_skip : ∀ p ∈ keywords, p.2 ≠ K.skip := by decide
+
+theorem kwOf_ne_skip (n : List Char) : kwOf n ≠ .skip := by
+  unfold kwOf
+  split
+  · rename_i p hp
+    exact keywords_not_skip p (List.mem_of_find?_eq_some hp)
+  · decide
+
+/-- Names and keywords of any length and spelling are self-delimiting. -/
+theorem Delim_name (c : Char) (n : List Char) (hc : isNameStart c = true) (hws : isWs c = false)
+    (hn : ∀ d ∈ c :: n, isNameChar d = true) : Delim ⟨kwOf (c :: n), c :: n⟩ :=
+  ⟨fun rest => C01_lex_name c n (' ' :: rest) hc hws hn
+      (fun d r h => by
+        have : d = ' ' := by simpa using (List.cons.inj h).1.symm
+        subst this; exact ⟨by decide, by decide⟩),
+   kwOf_ne_skip _⟩
+
+/-- Digit strings of any length are self-delimiting INT tokens. -/
+theorem Delim_int (c : Char) (n : List Char) (hn : ∀ d ∈ c :: n, d.isDigit = true) :
+    Delim ⟨.int, c :: n⟩ :=
+  ⟨fun rest => C01_lex_int c n (' ' :: rest) hn
+      (fun d r h => by
+        have : d = ' ' := by simpa using (List.cons.inj h).1.symm
+        subst this; exact ⟨by decide, by decide, by decide, by decide⟩),
+   fun h => K.noConfusion h⟩
+
+/-- The operators and punctuation marks of expressions are self-delimiting. -/
+theorem Delim_ops :
+    Delim ⟨.plus, ['+']⟩ ∧ Delim ⟨.minus, ['-']⟩ ∧ Delim ⟨.mul, ['*']⟩ ∧ Delim ⟨.div, ['/']⟩ ∧
+    Delim ⟨.lbr, ['(']⟩ ∧ Delim ⟨.rbr, [')']⟩ ∧ Delim ⟨.not, ['!']⟩ ∧ Delim ⟨.gt, ['>']⟩ ∧
+    Delim ⟨.lt, ['<']⟩ ∧ Delim ⟨.equals, ['=', '=']⟩ ∧ Delim ⟨.noteq, ['!', '=']⟩ ∧
+    Delim ⟨.gte, ['>', '=']⟩ ∧ Delim ⟨.lte, ['<', '=']⟩ ∧ Delim ⟨.and, ['&', '&']⟩ ∧
+    Delim ⟨.or, ['|', '|']⟩ ∧ Delim ⟨.set, ['=']⟩ ∧ Delim ⟨.comma, [',']⟩ := by
+  refine ⟨?_, ?_, ?_, ?_, ?_, ?_, ?_, ?_, ?_, ?_, ?_, ?_, ?_, ?_, ?_, ?_, ?_⟩ <;>
+    exact ⟨fun rest => by
+      simp [lexOne, lexLen, isWs, isNameStart, Char.isAlpha, Char.isUpper, Char.isLower, Char.isDigit], by decide⟩
+
+/-- Non-vacuity and use: an expression written with blanks, for names and numbers of any length. -/
+theorem C01_lex_spaced_example (c d : Char) (n m : List Char) (hc : isNameStart c = true)
+    (hws : isWs c = false) (hn : ∀ x ∈ c :: n, isNameChar x = true)
+    (hm : ∀ x ∈ d :: m, x.isDigit = true) :
+    tokens (spaced [⟨kwOf (c :: n), c :: n⟩, ⟨.plus, ['+']⟩, ⟨.int, d :: m⟩, ⟨.mul, ['*']⟩,
+                    ⟨.lbr, ['(']⟩, ⟨.int, d :: m⟩, ⟨.rbr, [')']⟩]) =
+      [⟨kwOf (c :: n), c :: n⟩, ⟨.plus, ['+']⟩, ⟨.int, d :: m⟩, ⟨.mul, ['*']⟩,
+       ⟨.lbr, ['(']⟩, ⟨.int, d :: m⟩, ⟨.rbr, [')']⟩] := by
+  refine (C01_lex_spaced _ ?_).2
+  intro t ht
+  simp only [List.mem_cons, List.not_mem_nil, or_false] at ht
+  rcases ht with rfl | rfl | rfl | rfl | rfl | rfl | rfl
+  · exact Delim_name c n hc hws hn
+  · exact Delim_ops.1
+  · exact Delim_int d m hm
+  · exact Delim_ops.2.2.1
+  · exact Delim_ops.2.2.2.2.1
+  · exact Delim_int d m hm
+  · exact Delim_ops.2.2.2.2.2.1
 
 end GV.Props.C01l
